@@ -703,6 +703,9 @@ class EvolvableModule(nn.Module, metaclass=ModuleMeta):
         except RuntimeError:
             pass
 
+        # A freshly built module is in training mode: keep the mode of the module it copies
+        clone.train(self.training)
+
         return clone
 
 
